@@ -18,6 +18,7 @@ import pathlib
 import pydoc
 import re
 import textwrap
+import threading
 import time
 import tokenize
 import traceback
@@ -171,6 +172,9 @@ def _build_func_identifier(func):
 # An in-memory store to avoid looking at the disk-based function
 # source code to check if a function definition has changed
 _FUNCTION_HASHES = weakref.WeakKeyDictionary()
+# The table is shared by all the threads of the process: iterating over it
+# while another thread adds or removes an entry raises a RuntimeError.
+_FUNCTION_HASHES_LOCK = threading.RLock()
 
 
 ###############################################################################
@@ -694,23 +698,25 @@ class MemorizedFunc(Logger):
         is_named_callable = (
             hasattr(self.func, "__name__") and self.func.__name__ != "<lambda>"
         )
-        if is_named_callable:
-            # Don't do this for lambda functions or strange callable
-            # objects, as it ends up being too fragile
-            func_hash = self._hash_func()
-            try:
-                _FUNCTION_HASHES[self.func] = func_hash
-            except TypeError:
-                # Some callable are not hashable
-                pass
-        # Another live function cached under the same identifier in the same
-        # location (e.g. the same name redefined while the previous function
-        # object is still in use) must compare its code with the store again:
-        # the code and the results stored there are not its own anymore.
+        func_hash = self._hash_func() if is_named_callable else None
         stored_under = (getattr(self.store_backend, "location", None), self.func_id)
-        for other, other_hash in list(_FUNCTION_HASHES.items()):
-            if other is not self.func and other_hash[-2:] == stored_under:
-                _FUNCTION_HASHES.pop(other, None)
+        with _FUNCTION_HASHES_LOCK:
+            if is_named_callable:
+                # Don't do this for lambda functions or strange callable
+                # objects, as it ends up being too fragile
+                try:
+                    _FUNCTION_HASHES[self.func] = func_hash
+                except TypeError:
+                    # Some callable are not hashable
+                    pass
+            # Another live function cached under the same identifier in the
+            # same location (e.g. the same name redefined while the previous
+            # function object is still in use) must compare its code with the
+            # store again: the code and the results stored there are not its
+            # own anymore.
+            for other, other_hash in list(_FUNCTION_HASHES.items()):
+                if other is not self.func and other_hash[-2:] == stored_under:
+                    _FUNCTION_HASHES.pop(other, None)
 
     def _check_previous_func_code(self, stacklevel=2):
         """
@@ -722,12 +728,14 @@ class MemorizedFunc(Logger):
         # also renders us robust to variations of the files when the
         # in-memory version of the code does not vary
         try:
-            if self.func in _FUNCTION_HASHES:
+            # A single lookup: another thread can remove the entry at any time
+            # (Memory.clear, same function name defined again).
+            stored_hash = _FUNCTION_HASHES.get(self.func)
+            if stored_hash is not None:
                 # We use as an identifier the id of the function and its
                 # hash. This is more likely to falsely change than have hash
                 # collisions, thus we are on the safe side.
-                func_hash = self._hash_func()
-                if func_hash == _FUNCTION_HASHES[self.func]:
+                if self._hash_func() == stored_hash:
                     return True
         except TypeError:
             # Some callables are not hashable
@@ -1179,7 +1187,8 @@ class Memory(Logger):
             # cache is also reset. Else, for a function that is present in this
             # table, results cached after this clear will be have cache miss
             # as the function code is not re-written.
-            _FUNCTION_HASHES.clear()
+            with _FUNCTION_HASHES_LOCK:
+                _FUNCTION_HASHES.clear()
 
     def reduce_size(self, bytes_limit=None, items_limit=None, age_limit=None):
         """Remove cache elements to make the cache fit its limits.
